@@ -291,7 +291,9 @@ def merge_unit(results, unit, prop):
                     notes.update(rec.get("notes") or {})
                 elif t == "done":
                     done = True
-        if not done:
+        if not done or r["rc"] != 0:
+            # a non-zero exit with a complete stream is a failed test
+            # (t.Fatalf watchdog / harness error): inconclusive.
             incomplete.append({"shard": r["shard"], "rc": r["rc"], "log": r["log"],
                                "last_case": last_case})
     return {"counters": counters, "sigs": sigs, "samples": samples, "viols": viols,
